@@ -855,8 +855,9 @@ export class RegexRuntype extends BaseRuntype {
   constructor(metadata: RuntypeMetadata | undefined, regex: RegExp, description: string) {
     super(metadata);
     // a template literal type describes the whole string (the emitted pattern is not anchored), and `${string}`
-    // also covers line terminators, which `.` only matches with the "s" flag
-    this.regex = new RegExp(`^(?:${regex.source})$`, regex.flags.includes("s") ? regex.flags : regex.flags + "s");
+    // also covers line terminators, which `.` does not match
+    // (written with [\s\S] rather than the "s" flag so that the same source can be used as JSON Schema `pattern`)
+    this.regex = new RegExp(`^(?:${regex.source.split("(.*)").join("([\\s\\S]*)")})$`, regex.flags);
     this.description = description;
   }
 
